@@ -703,3 +703,53 @@ Proof.
   pose proof (round_core rt lv E L n T v w (ok3_join rt lv E n T v Hv Hg Hu) Hm') as Hr.
   eapply le_res_ok; [apply unm_ge; exact Hf | exact Hr].
 Qed.
+
+(* ------------------------------------------------------------------ toy runtime: laws hold, witnesses *)
+Lemma toy_laws : RoundLaws toy_rt toy_lv.
+Proof.
+  split.
+  - intros s v w Hlv Hm. destruct v as [a | | | | |]; try discriminate.
+    destruct s as [| [| [| [| s]]]];
+      destruct a as [| [| [| [| [| [| [| [| [| a]]]]]]]]]; cbn in Hlv; try discriminate;
+      vm_compute in Hm; inversion Hm; reflexivity.
+  - intros v Hn. destruct v as [a | | | | |]; try discriminate.
+    destruct a as [| a]; [reflexivity | discriminate].
+Qed.
+
+Definition C01_full_stmt : Prop :=
+  forall rt lv E n T v w, RoundLaws rt lv ->
+    valid rt lv E n T v = true -> c01_guard rt E n T v = true -> stmt_unamb rt lv E n T v = true ->
+    mar rt E n T v = Ok w -> unm rt E n T w = Ok v.
+
+(* Union[PurePath, int] and the int 5: the path member's marshaller (str) answers first although the
+   path unmarshaller rejects the int's own wire form; the value comes back as a path. *)
+Lemma refute_union_foreign_marshaller :
+  exists rt lv E n T v w v', RoundLaws rt lv /\
+    valid rt lv E n T v = true /\ c01_guard rt E n T v = true /\ stmt_unamb rt lv E n T v = true /\
+    union_unamb rt lv E n T v = false /\
+    mar rt E n T v = Ok w /\ unm rt E n T w = Ok v' /\ v' <> v.
+Proof.
+  exists toy_rt, toy_lv, toy_env, 3, (TUnion [TLeaf 0; TLeaf 1]), (PAtom 1), (PAtom 2), (PAtom 3).
+  split; [exact toy_laws |]. repeat split; try (vm_compute; reflexivity). discriminate.
+Qed.
+
+Lemma refute_full_stmt : ~ C01_full_stmt.
+Proof.
+  intros H.
+  assert (Hx : unm toy_rt toy_env 3 (TUnion [TLeaf 0; TLeaf 1]) (PAtom 2) = Ok (PAtom 1)).
+  { apply (H toy_rt toy_lv toy_env 3 (TUnion [TLeaf 0; TLeaf 1]) (PAtom 1) (PAtom 2) toy_laws);
+      vm_compute; reflexivity. }
+  vm_compute in Hx. discriminate.
+Qed.
+
+Lemma toy_roundtrip_instance :
+  valid toy_rt toy_lv toy_env 8 (TName 3) toy_value = true /\
+  c01_guard toy_rt toy_env 8 (TName 3) toy_value = true /\
+  union_unamb toy_rt toy_lv toy_env 8 (TName 3) toy_value = true /\
+  exists w, mar toy_rt toy_env 8 (TName 3) toy_value = Ok w /\
+            forall f, f >= 8 -> unm toy_rt toy_env f (TName 3) w = Ok toy_value.
+Proof.
+  repeat split; try (vm_compute; reflexivity).
+  eexists; split; [vm_compute; reflexivity |].
+  intros f Hf. eapply (roundtrip_fuel toy_rt toy_lv toy_env toy_laws 8 8); try (vm_compute; reflexivity); auto.
+Qed.
